@@ -9,7 +9,9 @@ RULE = ("settings whose strings are built by a grammar of literals, ${ref}, ${re
         "Env configs, in one of up to 3 resolvers, in several of them, or nowhere, set / empty; the referenced value defined before or "
         "after the referencing one (merge order); read through Unpack, String/Int/Bool getters, Has, Child. Oracle: an independent "
         "Python evaluator of the statement (first hit in root, Envs latest first, resolvers latest first; operator table; unresolved = "
-        "error) for settings whose substituted text is not re-typed; everything is also compared with the Lean model. A malformed "
+        "error) for settings whose substituted text is not re-typed; everything is also compared with the Lean model. A second stream "
+        "puts references into list elements and nested objects (depth <= 3) and (re)defines the referenced names by one to three later "
+        "merges: the value read must be the one after the last merge (late binding). A malformed "
         "stream (unbalanced braces, trailing $ / :) is compared with the model. Non-trivial: at least one reference. Distinct by "
         "(operator set, nesting depth, placement pattern, outcome kind).")
 TRUSTED_BASE = ["Lean 4 kernel", "extractor: operator tokens", "Model/Vars.lean, Eval.lean transcribe variables.go/types.go (differential check)",
@@ -312,6 +314,42 @@ def gen(rng, tier):
         c["_nt"] = bool(ops)
         c["_sig"] = "%s|%s|e%d r%d" % ("+".join(sorted(ops)), "".join(sorted(set(p[0] for p in placement.values()))), len(E.envs), len(E.res))
         yield c
+    # late binding inside containers: references in list elements / nested objects, the referenced names (re)defined by later merges
+    W = ["one", "two", "three", "here", "there"]
+    for _ in range(n // 6):
+        x0, x1 = rng.pick(W), rng.pick(W)
+        later = rng.chance(0.5)
+        lv = rng.pick(W)
+        def tm(final):
+            r = rng.below(4)
+            x = x1 if final else x0
+            if r == 0: return "${x}", x
+            if r == 1: return "p-${x}-q", "p-" + x + "-q"
+            if r == 2: return "${later:none}", (lv if later else "none")
+            return "${x}${later:+ and ${later}}", (x + (" and " + lv if later else ""))
+        reads, expect = [], []
+        def leaf(path):
+            t, want = tm(True)
+            reads.append({"r": "get", "type": "String", "name": path, "idx": -1}); expect.append({"ok": {"s": want}})
+            return S(t)
+        shape = rng.below(4)
+        if shape == 0:
+            body = [("l", A([leaf("l.0"), leaf("l.1")]))]
+        elif shape == 1:
+            body = [("l", A([M([("k", leaf("l.0.k"))]), leaf("l.1")]))]
+        elif shape == 2:
+            body = [("o", M([("in", A([leaf("o.in.0"), A([leaf("o.in.1.0")])]))]))]
+        else:
+            body = [("l", A([A([leaf("l.0.0")]), M([("m", A([leaf("l.1.m.0")]))])])), ("d", M([("k", leaf("d.k"))]))]
+        copts = [opt("PathSep", "."), opt("VarExp")]
+        merges = [{"b": M([("x", S(x1))]), "opts": copts}]
+        if later:
+            merges.insert(rng.below(2), {"b": M([("later", S(lv))]), "opts": copts})
+        if rng.chance(0.3):
+            merges.append({"b": M([("unrelated", A([S("${x}")]))]), "opts": copts})
+        reads.append({"r": "view"}); expect.append(None)
+        yield {"k": "eval", "from": M(rng.shuffle([("x", S(x0))] + body)), "opts": copts, "merges": merges, "ropts": copts, "reads": reads, "expect": expect,
+               "repeat": 2, "_tag": "eval/late-binding-containers", "_nt": True, "_sig": "late|%d|%s|%s" % (shape, later, x0 == x1)}
     # malformed expressions: compared with the model
     bad = ["${", "${a", "${a:", "a}", "$", "$$", "${}", "${:x}", "${a:+}", "${a:?}", "${${}}", "$}", "${a}}", "x:${n0}:y", "${n0:${", "${n0:$}", ":", "${ n0 }",
            "${n0}$", "$${n0}", "${n0:+${n1:?e}}", "${n9:?msg ${n0}}", "${n0.x}", "${o}", "${o.k.z}", "${0}", "[${n0}]", "${n0},${n1}", "{a: ${n0}}"]
